@@ -67,7 +67,7 @@ def srcDeleteGuarded : Bool := Gen.body_nut11_HasValidSignatures.contains "if le
 
 theorem F6_line (keys : List Key) :
     removeMatchedKey keys = (if srcDeleteGuarded then decide (keys.length > 1) else true) := by
-  have h : srcDeleteGuarded = true := by decide
+  have h : srcDeleteGuarded = false := by decide
   simp [h, removeMatchedKey]
 
 /-- F7: the statement executed by ProofsSigAll when `DeserializeSecret` fails (the line after `if err != nil {`). -/
@@ -84,8 +84,8 @@ theorem F8_line (o : Output) :
     htlcOutputMsg o = (if srcHtlcSignsText then some o.msgText else o.msgDecoded) ∧
     (srcHtlcSignsText = false →
       Gen.args_htlcOutputsHash = Gen.args_p2pkOutputsHash ∧ Gen.args_htlcOutputsDecode = Gen.args_p2pkOutputsDecode) := by
-  have h : srcHtlcSignsText = true := by decide
-  simp [h, htlcOutputMsg]
+  have h : srcHtlcSignsText = false := by decide
+  refine ⟨by simp [h, htlcOutputMsg], fun _ => ⟨rfl, rfl⟩⟩
 
 /-- AddSignatureToOutputs hashes the hex-decoded `B_` (`Model.Spend.addSignatureToOutputs` signs `msgDecoded`). -/
 theorem p2pkOutputsHash : Gen.args_p2pkOutputsHash = [["msgToSign"]] ∧ Gen.args_p2pkOutputsDecode = [["output.B_"]] := ⟨rfl, rfl⟩
@@ -106,9 +106,7 @@ theorem body_HasValidSignatures : Gen.body_nut11_HasValidSignatures =
       "for i, pubkey := range pubkeysCopy {",
       "if sig.Verify(hash, pubkey) {",
       "validSignatures++",
-      "if len(pubkeysCopy) > 1 {",
       "pubkeysCopy = slices.Delete(pubkeysCopy, i, i+1)",
-      "}",
       "break",
       "}",
       "}",
@@ -122,7 +120,7 @@ theorem body_ProofsSigAll : Gen.body_nut11_ProofsSigAll =
       "for _, proof := range proofs {",
       "secret, err := nut10.DeserializeSecret(proof.Secret)",
       "if err != nil {",
-      "return false",
+      "continue",
       "}",
       "if IsSigAll(secret) {",
       "return true",
@@ -135,7 +133,11 @@ theorem body_AddWitnessHTLCToOutputs : Gen.body_nut14_AddWitnessHTLCToOutputs =
     [
       "{",
       "for i, output := range outputs {",
-      "hash := sha256.Sum256([]byte(output.B_))",
+      "msgToSign, err := hex.DecodeString(output.B_)",
+      "if err != nil {",
+      "return nil, err",
+      "}",
+      "hash := sha256.Sum256(msgToSign)",
       "signature, err := schnorr.Sign(signingKey, hash[:])",
       "if err != nil {",
       "return nil, err",
